@@ -77,9 +77,25 @@ PINNED = {
 STATUS = {}
 
 
-def read(name, fn):
-    """fn() evaluated against the tree under test; the pinned value if that fails or gives a value of another shape"""
+def read(name, fn, observe=None):
+    """fn() evaluated against the tree under test (reads the constant where the pinned tree keeps it); if that fails and
+    `observe` is given, the value is OBSERVED through the public API of the tree under test (a private table that was renamed
+    or restructured still shows in what the shipped classes do); the pinned value if both fail or give a value of another shape"""
     try:
+        return _read(name, fn, "source")
+    except Exception as e:  # noqa: BLE001
+        first = "%s: %s" % (type(e).__name__, str(e)[:120])
+    if observe is not None:
+        try:
+            return _read(name, observe, "observed through the public API (not readable where the pinned tree keeps it: %s)" % first)
+        except Exception as e:  # noqa: BLE001
+            first += "; observation failed: %s: %s" % (type(e).__name__, str(e)[:80])
+    STATUS[name] = "pinned value used (%s)" % first
+    return PINNED[name]
+
+
+def _read(name, fn, status):
+    if True:
         v = fn()
         pin = PINNED[name]
         if isinstance(pin, list):
@@ -91,11 +107,8 @@ def read(name, fn):
         elif isinstance(pin, str) and name != "default_value_column":
             if not isinstance(v, str) or (v == "" and pin != ""):
                 raise ValueError("unexpected value %r" % (v,))
-        STATUS[name] = "source"
+        STATUS[name] = status
         return v
-    except Exception as e:  # noqa: BLE001
-        STATUS[name] = "pinned value used (%s: %s)" % (type(e).__name__, str(e)[:120])
-        return PINNED[name]
 
 
 def generate():
@@ -133,8 +146,28 @@ def generate():
 
     month = "bibtexparser.middlewares.month"
     encl = "bibtexparser.middlewares.enclosing"
-    m_abbrev = read("month_abbrev", lambda: mod(month)._MONTH_ABBREV)
-    m_full = read("month_full", lambda: mod(month)._MONTH_FULL)
+
+    def month_by(mw_name):
+        # what the shipped middleware turns the integers 1..12 into
+        from bibtexparser.library import Library
+        from bibtexparser.model import Entry, Field
+        mw = getattr(mod(month), mw_name)()
+        return [mw.transform(Library([Entry("article", "k", [Field("month", i)])])).entries[0]["month"] for i in range(1, 13)]
+
+    def ws_observed(kind):
+        # which characters separate words (parse) / stand around the ` and ` separator (split), tried on every whitespace
+        # character of Unicode plus the tie
+        names = mod("bibtexparser.middlewares.names")
+        cand = [chr(c) for c in range(0x3001) if chr(c).isspace()] + ["~"]
+        if kind == "parse":
+            sep = [c for c in cand if names.parse_single_name_into_parts("Aa" + c + "Bb", strict=False).last == ["Bb"]
+                   and names.parse_single_name_into_parts("Aa" + c + "Bb", strict=False).first == ["Aa"]]
+        else:
+            sep = [c for c in cand if names.split_multiple_persons_names("Aa" + c + "and" + c + "Bb") == ["Aa", "Bb"]]
+        return "".join(sorted(sep))
+
+    m_abbrev = read("month_abbrev", lambda: mod(month)._MONTH_ABBREV, lambda: month_by("MonthAbbreviationMiddleware"))
+    m_full = read("month_full", lambda: mod(month)._MONTH_FULL, lambda: month_by("MonthLongStringMiddleware"))
     STATUS_KEEP = dict(STATUS)
     # derived tables (kept in the generated file because the month model checks them against each other)
     try:
@@ -171,9 +204,10 @@ def generate():
       cstr(read("parsing_failed_comment", lambda: mod("bibtexparser.writer").PARSING_FAILED_COMMENT)))
     w("Definition default_block_type_order : list N := [%s]%%N." % "; ".join(str(c) for c in read("default_block_type_order", order)))
     w("Definition default_name_fields : list str :=\n  %s." % clist(read("default_name_fields", lambda: inspect.signature(
-        mod("bibtexparser.middlewares.names")._NameTransformerMiddleware.__init__).parameters["name_fields"].default)))
-    w("Definition names_ws_parse : str := %s." % cstr(read("names_ws_parse", lambda: ws_of("parse_single_name_into_parts"))))
-    w("Definition names_ws_split : str := %s." % cstr(read("names_ws_split", lambda: ws_of("split_multiple_persons_names"))))
+        mod("bibtexparser.middlewares.names")._NameTransformerMiddleware.__init__).parameters["name_fields"].default,
+        lambda: mod("bibtexparser.middlewares.names").SeparateCoAuthors().name_fields)))
+    w("Definition names_ws_parse : str := %s." % cstr(read("names_ws_parse", lambda: ws_of("parse_single_name_into_parts"), lambda: ws_observed("parse"))))
+    w("Definition names_ws_split : str := %s." % cstr(read("names_ws_split", lambda: ws_of("split_multiple_persons_names"), lambda: ws_observed("split"))))
     w("Definition mark_regex_src : str := %s." % cstr(read("mark_regex_src", regex)))
     w("Definition default_indent : str := %s." % cstr(read("default_indent", lambda: fmt().indent)))
     w("Definition default_block_separator : str := %s." % cstr(read("default_block_separator", lambda: fmt().block_separator)))
